@@ -304,12 +304,14 @@ int vs_epoll_wait(int epfd, struct epoll_event *events, int maxevents, int *time
 }
 
 /* ---- threads (called from vmain's pthread_create wrapper when active) ---- */
-typedef struct { void *(*fn)(void *); void *arg; int id; } VStart;
+extern __thread uint32_t verif_sbx_floor;
+typedef struct { void *(*fn)(void *); void *arg; int id; uint32_t sbx; } VStart;
 
 static void *vs_trampoline(void *p) {
     VStart st = *(VStart *) p;
     free(p);
     vs_self = st.id;
+    verif_sbx_floor = st.sbx;
     while (sem_wait(&T[st.id].sem) != 0 && errno == EINTR) {}
     T[st.id].state = VS_RUNNING;
     void *r = st.fn(st.arg);
@@ -326,6 +328,7 @@ int vs_pthread_create(pthread_t *t, const pthread_attr_t *a, void *(*fn)(void *)
     st->fn = fn;
     st->arg = arg;
     st->id = id;
+    st->sbx = janet_vm.sandbox_flags | verif_sbx_floor;
     sem_init(&T[id].sem, 0, 0);
     T[id].state = VS_NEW;
     vs_nthreads++;
